@@ -269,7 +269,7 @@ func (w *dtWalker) addrKey(st *dtState, a ssa.Value) string {
 		if k, ok := st.env[x]; ok {
 			return k
 		}
-		return fmt.Sprintf("local:%s", x.Comment)
+		return w.allocName(x)
 	case *ssa.IndexAddr:
 		base := w.keyOf(st, x.X)
 		if base == "" {
@@ -301,7 +301,7 @@ func (w *dtWalker) addrKey(st *dtState, a ssa.Value) string {
 func (w *dtWalker) exec(st *dtState, in ssa.Instruction) {
 	switch x := in.(type) {
 	case *ssa.Alloc:
-		st.env[x] = fmt.Sprintf("local:%s", x.Comment)
+		st.env[x] = w.allocName(x)
 	case *ssa.FieldAddr, *ssa.IndexAddr:
 		if k := w.addrKey(st, x.(ssa.Value)); k != "" {
 			st.env[x.(ssa.Value)] = "&" + k
@@ -705,6 +705,35 @@ func (w *dtWalker) evalCond(st *dtState, cond ssa.Value) (string, string, string
 				key, cv = w.keyOf(st, bo.X), rc
 			} else if lok {
 				key, cv = w.keyOf(st, bo.Y), lc
+			} else {
+				// two keyed values compared with each other: an opaque boolean literal
+				l, r := w.keyOf(st, bo.X), w.keyOf(st, bo.Y)
+				if l == "" || r == "" {
+					return "", "", "", nil
+				}
+				if l == r {
+					res := bo.Op == token.EQL
+					if neg {
+						res = !res
+					}
+					return fmt.Sprint(res), "", "", nil
+				}
+				if r < l {
+					l, r = r, l
+				}
+				bkey := "(" + l + "==" + r + ")"
+				eqTrue := (bo.Op == token.EQL) != neg
+				if kn := st.path.know[bkey]; kn != nil && kn.eq != nil {
+					b := constant.BoolVal(*kn.eq)
+					if !eqTrue {
+						b = !b
+					}
+					return fmt.Sprint(b), "", "", nil
+				}
+				if eqTrue {
+					return "fork", bkey, "bool", nil
+				}
+				return "forkneg", bkey, "bool", nil
 			}
 			if key == "" {
 				return "", "", "", nil
@@ -837,4 +866,41 @@ func (w *dtWalker) sliceElemKeys(st *dtState, v ssa.Value) ([]string, bool) {
 		out[i] = byIdx[int64(i)]
 	}
 	return out, true
+}
+
+// allocName: "local:<comment>" for the first alloc with that comment in the function, "local:<comment>#k" for later ones.
+func (w *dtWalker) allocName(a *ssa.Alloc) string {
+	k := 0
+	found := false
+	for _, b := range w.fn.Blocks {
+		for _, in := range b.Instrs {
+			if al, ok := in.(*ssa.Alloc); ok && al.Comment == a.Comment {
+				if al == a {
+					found = true
+					break
+				}
+				k++
+			}
+		}
+		if found {
+			break
+		}
+	}
+	if !found {
+		// function-level locals (fn.Locals) are not instructions
+		for i, al := range w.fn.Locals {
+			if al == a {
+				k = 0
+				for _, other := range w.fn.Locals[:i] {
+					if other.Comment == a.Comment {
+						k++
+					}
+				}
+			}
+		}
+	}
+	if k == 0 {
+		return "local:" + a.Comment
+	}
+	return fmt.Sprintf("local:%s#%d", a.Comment, k+1)
 }
